@@ -591,6 +591,141 @@ def d2b_rule_lookup(chk: Check) -> None:
                      .format(sorted(attrs), other))
 
 
+def d2c_per_rule_handler(chk: Check) -> None:
+    """A rule whose path matches nothing in this right-hand document is
+    skipped with a warning; the remaining rules of the section still apply.
+    Structurally: the handler that swallows the query's YAMLPathException
+    sits inside the loop over the section's entries."""
+    prog = chk.prog
+    chk.rule("C05-D2c", "an unmatched per-path rule is skipped alone: the "
+             "swallowing handler is inside the loop over the rules",
+             floor=2)
+    for qual in ("MergerConfig._prepare_user_rules",
+                 "DifferConfig._prepare_user_rules"):
+        _per_rule_handler(chk, prog.func(qual))
+
+
+def _per_rule_handler(chk: Check, fi: FuncInfo) -> None:
+    loops = [n for n in walk_local(fi.node) if isinstance(n, ast.For) and
+             "self.config[" in src(n.iter)]
+    queries = [c for c in walk_local(fi.node) if isinstance(c, ast.Call) and
+               src(c.func).endswith(".get_nodes")]
+    if len(loops) != 1 or len(queries) != 1:
+        raise AnalysisError("rule loop / query of _prepare_user_rules not "
+                            "found")
+    loop, q = loops[0], queries[0]
+    from sa.model import ancestors
+    tries = [a for a in ancestors(q) if isinstance(a, ast.Try) and any(
+        h.type is not None and "YAMLPathException" in src(h.type) and
+        not any(isinstance(x, (ast.Raise, ast.Return)) for x in ast.walk(h))
+        for h in a.handlers)]
+    text = "for {} in {}".format(src(loop.target), src(loop.iter))
+    if not tries:
+        chk.fail("C05-D2c", fi, q, text,
+                 "no handler swallows the unmatched-rule exception: one "
+                 "unmatched rule aborts the preparation of all rules")
+    elif any(a is loop for a in ancestors(tries[0])):
+        chk.ok("C05-D2c", fi, tries[0], text,
+               "handler inside the loop: the next rule is still prepared")
+    else:
+        chk.fail("C05-D2c", fi, tries[0], text,
+                 "the swallowing handler encloses the whole loop: every "
+                 "rule listed after an unmatched one is silently dropped")
+
+
+def d2d_rules_per_document(chk: Check, rid: str = "C05-D2d") -> None:
+    """The rule / key tables map *nodes of one right-hand document* to
+    policies and are matched by value.  prepare() must start each table
+    empty for every document it is given, or an entry left by an earlier
+    document applies to equal-looking nodes of a later one."""
+    from sa.coords import reaching_def
+    from sa.guards import facts_at
+    prog = chk.prog
+    chk.rule(rid, "prepare() empties every table it then fills for the "
+             "new document (MergerConfig and DifferConfig)", floor=4)
+    for qual in ("MergerConfig.prepare", "DifferConfig.prepare"):
+        fi = prog.func(qual)
+        chk.analysed(fi)
+        calls = [c for c in walk_local(fi.node) if isinstance(c, ast.Call)
+                 and src(c.func).endswith("._prepare_user_rules")]
+        if len(calls) < 2:
+            raise AnalysisError("collector calls of {} not found".format(
+                qual))
+        for c in calls:
+            table = src(c.args[-1])
+            text = "{}: {}".format(qual, src(c)[:60])
+            resets = [n for n in fi.node.body if isinstance(n, ast.Assign)
+                      and src(n.targets[0]) == table and
+                      src(n.value) in ("{}", "dict()") and
+                      n.lineno < c.lineno]
+            if resets:
+                chk.ok(rid, fi, c, text, "`{}` emptied at line {}, "
+                       "unconditionally".format(table, resets[0].lineno))
+            else:
+                chk.fail(rid, fi, c, text,
+                         "`{}` is filled for the new document without being "
+                         "emptied first: entries matched in an earlier "
+                         "document stay in force and are matched by value "
+                         "against this one".format(table))
+
+
+def d1g_own_keys_survive(chk: Check) -> None:
+    """Before re-inserting keys, _merge_dicts drops the entries the left
+    hash merely inherits through `<<:`.  An entry the hash *owns* -- also
+    one that overrides an inherited key -- must survive: the set of deleted
+    keys is (all keys) minus (keys of non_merged_items())."""
+    from sa.coords import reaching_def
+    prog = chk.prog
+    chk.rule("C05-D1g", "the keys removed by _delete_mergeref_keys are all "
+             "keys minus the hash's own (non-merged) keys", floor=1)
+    fi = prog.func("Merger._delete_mergeref_keys")
+    chk.analysed(fi)
+    data = fi.params()[1]
+    dels = [n for n in walk_local(fi.node) if isinstance(n, ast.Subscript)
+            and isinstance(n.ctx, ast.Del) and src(n.value) == data]
+    if not dels:
+        raise AnalysisError("_delete_mergeref_keys deletes nothing")
+    # names that collect the own keys
+    own: Set[str] = set()
+    for loop in walk_local(fi.node):
+        if isinstance(loop, ast.For) and \
+                src(loop.iter) == data + ".non_merged_items()":
+            for c in walk_local(loop):
+                if isinstance(c, ast.Call) and \
+                        isinstance(c.func, ast.Attribute) and \
+                        c.func.attr in ("append", "add"):
+                    own.add(src(c.func.value))
+    for n in walk_local(fi.node):
+        if isinstance(n, ast.Assign) and isinstance(
+                n.value, (ast.ListComp, ast.SetComp)) and \
+                src(n.value.generators[0].iter) == \
+                data + ".non_merged_items()":
+            own.add(src(n.targets[0]))
+    for d in dels:
+        from sa.model import ancestors
+        loops = [a for a in ancestors(d) if isinstance(a, ast.For)]
+        text = "del {}[{}]".format(data, src(d.slice))
+        ok = False
+        why = "the deleted key does not come from a loop"
+        if loops:
+            it = loops[0].iter
+            src_e = reaching_def(it.id, loops[0]) \
+                if isinstance(it, ast.Name) else it
+            t = src(src_e).replace(" ", "") if src_e is not None else ""
+            all_keys = "set({}.keys())".format(data)
+            ok = any(t in ("{}.difference({})".format(all_keys, o),
+                           "{}-set({})".format(all_keys, o),
+                           "{}-{}".format(all_keys, o)) for o in own)
+            why = "the keys iterated are `{}`".format(t or src(it))
+        if ok:
+            chk.ok("C05-D1g", fi, d, text, "all keys minus own keys")
+        else:
+            chk.fail("C05-D1g", fi, d, text,
+                     why + ", not (all keys) minus (own keys): a key the "
+                     "hash owns and also inherits is deleted, and its local "
+                     "value reverts to the inherited one")
+
+
 # ---------------------------------------------------------------- D3 ------
 def d3_exceptions(chk: Check) -> None:
     prog = chk.prog
@@ -705,5 +840,8 @@ def run(chk: Check) -> None:
     d1_dicts(chk)
     d2_ladders(chk)
     d2b_rule_lookup(chk)
+    d1g_own_keys_survive(chk)
+    d2c_per_rule_handler(chk)
+    d2d_rules_per_document(chk)
     d3_exceptions(chk)
     d4_from_str(chk)
